@@ -239,7 +239,7 @@ def unit_fill(eng, cmd):
         errs = errors(eng)
         out = zbytes(val)
         i = z3.Int("i!spec")
-        zero = z3.ForAll([i], z3.Implies(z3.And(i >= 0, i < z3.Length(out)), out[i] == 0))
+        zero = z3.ForAll([i], z3.Implies(z3.And(i >= 0, i < slen(out)), out[i] == 0))
         eng.prove("no-warning", len(warnings(eng)) == 0)
         if cmd in (".even", ".odd"):
             want = 1 if cmd == ".even" else 0
@@ -254,7 +254,7 @@ def unit_fill(eng, cmd):
                 eng.prove("refusal-identifiers", all(e[1] in ("type-mismatch", "value-out-of-bounds") for e in errs))
             else:
                 eng.prove("accepted-only-valid-modulus", okc)
-                k = z3.Length(out)
+                k = slen(out)
                 # exists t. addr + k == t * modulus, with the witness t = -floor(-addr / modulus)
                 eng.prove("align-pads-to-multiple", addr + k == -fdiv(-addr, v) * v)
                 eng.prove("align-pad-is-least", z3.And(k >= 0, k < v))
@@ -267,7 +267,7 @@ def unit_fill(eng, cmd):
             eng.prove("refusal-identifiers", all(e[1] in ("type-mismatch", "value-out-of-bounds") for e in errs))
         else:
             eng.prove("accepted-only-valid-count", okc)
-            eng.prove("fill-length-is-exactly-count", z3.Length(out) == mult * v)
+            eng.prove("fill-length-is-exactly-count", slen(out) == mult * v)
             eng.prove("fill-is-zero", zero)
     r = verify(eng, name, run, post, func="metacommands." + cmd[1:])
     for o in r["obligations"]:
